@@ -2,7 +2,8 @@ package ergo
 
 // Bounded stand-in for C17 (labelled bounded): a title/body written through the real chain
 // newEvent -> appendEvents -> readEvents -> replayEvents -> buildTaskShowOutput -> writeJSON comes back identical.
-// Bound: all strings of 1..3 code points over an alphabet of troublemakers (quick tier: 1..2), plus long strings.
+// Bound: all strings of 1..3 code points over an alphabet of troublemakers (quick tier: 1..2), plus long strings,
+// plus 23 literals that look like escape sequences of the serialisation (each alone, embedded, doubled).
 
 import (
 	"bytes"
@@ -38,6 +39,10 @@ func TestVerifBounded_textRoundTrip(t *testing.T) {
 	}
 	gen("", maxLen)
 	inputs = append(inputs, strings.Repeat("x\u4e2d\"\\\n", 60000), strings.Repeat("\U0001F600", 100000))
+	// text that LOOKS like an escape sequence of the serialisation (must come back as the same literal characters)
+	for _, lit := range []string{`\u003c`, `\u003e`, `\u0026`, `\u2028`, `\u0000`, `\ud800`, `\n`, `\t`, `\"`, `\/`, `\\`, `\\u003c`, `\x41`, `&lt;`, `&gt;`, `&amp;`, `&#34;`, `%3C`, `</script>`, `{"a":"b"}`, `["x"]`, `null`, `\u003cb\u003e`} {
+		inputs = append(inputs, lit, "x"+lit+"y", lit+lit)
+	}
 	dir := t.TempDir()
 	path := filepath.Join(dir, "plans.jsonl")
 	cases, failures := 0, 0
@@ -109,5 +114,5 @@ func TestVerifBounded_textRoundTrip(t *testing.T) {
 			}
 		}
 	}
-	fmt.Printf("VERIF-BOUNDED name=textRoundTrip cases=%d failures=%d bound=strings-of-1..%d-code-points-over-%d-troublemakers+2-long\n", cases, failures, maxLen, len(alphabet))
+	fmt.Printf("VERIF-BOUNDED name=textRoundTrip cases=%d failures=%d bound=strings-of-1..%d-code-points-over-%d-troublemakers+2-long+69-escape-lookalikes\n", cases, failures, maxLen, len(alphabet))
 }
